@@ -51,32 +51,106 @@ CORNER_STATEMENTS = [
     "---", "---\n---", "@union", "@union\n@union", "@union\nuint8 a", "@deprecated\n@deprecated", "uint8 a\n@union", "@sealed\n@sealed",
     "@sealed\n@extent 64", "@extent 64\nuint8 a", "﻿@print 1", "\x00", "\x0c", "\x0b@print 1", "@print 1\x00", "@print 1", "@print 1",
     "@print 1 # \x00 ퟿", "# \U0001F600", "@print '\t'", "@print 'a\nb' == 'a\\nb'", "@print \"a\nb\"", "@print 'unterminated", "@print '\\'",
+    # powers whose operands are beyond the range (or below the resolution) of a float, yet cheap in exact arithmetic
+    "@assert (10 ** 400) ** 2 == 10 ** 800", "@print (10 ** 400) ** 0", "uint8[(10 ** 400) ** 0] x", "@assert 1e-400 ** 2 == 1e-800",
+    "@print (1e-400) ** 3", "@print 1e400 ** 2", "@print (-(10 ** 400)) ** 3", "@print {10 ** 400, 1} ** 2", "@print (1e-400) ** -2",
+    "@print (10 ** -400) ** 2", "@print (10 ** 400) ** -1", "@print 2 ** (10 ** 400 - 10 ** 400 + 3)", "@print (10 ** 400 / 10 ** 399) ** 2",
+    "@print 1e400 ** 1", "@print (1e400 / 3) ** 1", "@print 10 ** 400 % 7 ** 2", "@print (10 ** 309) ** 1", "@print (2 ** 1024) ** 1",
+    "@print (2 ** -1075) ** 1", "@print (1 / 2 ** 1075) ** 2", "@print 1e308 ** 2", "@print 1e-324 ** 2",
     "uint8 é", "uint8 Ω1", "uint٨ a", "uint8[١] a", "@print ١", "@print 1\r@print 2", "@print 1\r\n\r\n", "\r\n\r\n", "   \t  ", "#",
 ]
+
+
+def deep_statement(rng):
+    """A statement nested far deeper than any hand-written definition (recursive-descent parsing and evaluation)."""
+    n = rng.choice([17, 24, 30, 36, 40, 45, 50, 60, 80, 120, 200, 400, 1000])
+    style = rng.choice(["paren", "set", "neg-paren", "not-paren", "mixed", "capacity", "unbalanced", "attr", "binary-right", "binary-left", "const"])
+    if style == "paren":
+        e = "(" * n + "1" + ")" * n
+    elif style == "set":
+        e = "{" * n + "1" + "}" * n
+    elif style == "neg-paren":
+        e = "-(" * n + "1" + ")" * n
+    elif style == "not-paren":
+        e = "!(" * n + "true" + ")" * n
+    elif style == "mixed":
+        opens = [rng.choice(["(", "{", "-(", "1+(", "({"]) for _ in range(n)]
+        e = "".join(opens) + "1" + "".join("})" if o == "({" else ("}" if o == "{" else ")") for o in reversed(opens))
+    elif style == "capacity":
+        return "uint8[%s] deep" % ("(" * n + "2" + ")" * n)
+    elif style == "unbalanced":
+        e = rng.choice(["(", "{", "-("]) * n + "1"
+    elif style == "attr":
+        e = "{1}" + ".count" * 1 + " + {1}.max" * n
+    elif style == "binary-right":
+        e = "1" + " + (1" * n + ")" * n
+    elif style == "binary-left":
+        e = "(" * n + "1" + " + 1)" * n
+    else:
+        return "uint64 DEEP = " + "(" * n + "1" + ")" * n
+    return rng.choice(["@print ", "@assert 1 == ", "@assert {1} != "]) + e
 
 
 def tokenize(text):
     return TOKEN_RE.findall(text)
 
 
-EXP_RE = re.compile(r"[eE][+-]?\d{5,}")
-BIGNUM_RE = re.compile(r"\d{7,}")
+NUM_RE = re.compile(r"0[xX][0-9a-fA-F_]+|0[bB][01_]+|0[oO][0-7_]+|(?:\d[\d_]*\.?[\d_]*|\.\d[\d_]*)(?:[eE][+-]?\d+)?")
+IDENT_RE = re.compile(r"[A-Za-z_][A-Za-z0-9_]*")
+LIMIT_BITS = 4e6  # results of up to ~4 Mbit are cheap for CPython's integers
+
+
+def literal_size(tok):
+    """(bits the literal's exact value occupies, its magnitude), rough upper bounds as floats (capped at 1e30)."""
+    t = tok.replace("_", "")
+    try:
+        if t[:2].lower() in ("0x", "0b", "0o"):
+            v = int(t, 0)
+            return float(max(1, v.bit_length())), float(min(v, 10 ** 30))
+        m = re.match(r"([\d.]*)(?:[eE]([+-]?\d+))?$", t)
+        mant, exp = m.group(1), int(m.group(2) or 0)
+        digits = len(mant.replace(".", ""))
+        bits = 3.33 * (digits + abs(exp)) + 1
+        try:
+            mag = min(float(t), 1e30)
+        except (OverflowError, ValueError):
+            mag = 1e30
+        return bits, mag
+    except Exception:  # noqa
+        return 1e30, 1e30
 
 
 def risky(text) -> bool:
-    """True if evaluating the text could exhaust memory/time in big-integer arithmetic (outside the bounded workload)."""
-    if EXP_RE.search(text.replace("_", "")):
-        return True
-    for line in re.split(r"[\r\n]+", text):
-        n = line.count("**")
-        if n > 1:
-            return True
-        if n == 1 and (BIGNUM_RE.search(line.replace("_", "")) or re.search(r"[eE][+-]?\d{3,}", line) or "_offset_" in line or "_bit_length_" in line):
+    """
+    True if evaluating the text could exhaust memory/time in big-integer arithmetic (outside the bounded workload).
+    For a line with k power operators, B = bits of its largest literal and L = value of its largest literal (literals of
+    the whole text count as soon as the line mentions an identifier: constants are defined by literals): a single power
+    or left-nested powers `(a ** b) ** c` need about B * L**k bits; anything else is treated as a tower a ** (b ** c).
+    """
+    whole = [literal_size(t) for t in NUM_RE.findall(text)] or [(3.0, 3.0)]
+    g_bits, g_mag = max(b for b, _ in whole), max(m for _, m in whole)
+    lines = re.split(r"[\r\n]+", text)
+    power_lines = [ln for ln in lines if "**" in ln]
+    for line in power_lines:
+        k = line.count("**")
+        lits = [literal_size(t) for t in NUM_RE.findall(line)] or [(3.0, 3.0)]
+        bits, mag = max(b for b, _ in lits), max(2.0, max(m for _, m in lits))
+        idents = [t for t in IDENT_RE.findall(NUM_RE.sub(" ", line)) if t not in ("true", "false", "print", "assert", "extent")]
+        if idents:
+            if len(power_lines) > 1:
+                return True  # a constant defined through a power, used in another power
+            bits, mag = max(bits, g_bits, 64.0), max(mag, g_mag, 256.0)
+            if "_offset_" in line or "_bit_length_" in line or "_extent_" in line:
+                mag = max(mag, 1e5)
+        positions = [m.start() for m in re.finditer(r"\*\*", line)]
+        left_nested = all(line[:p].rstrip().endswith(")") for p in positions[1:])
+        if k == 1 or left_nested:
+            if bits * mag ** k > LIMIT_BITS:
+                return True
+        elif k > 2 or bits * mag > 20:
             return True
     if ("_offset_" in text or "_bit_length_" in text) and re.search(r"\[[^\]\n]*\d{3,}", text):
         return True  # numerical expansion of a large layout ("effectively incomputable" by the library's own documentation)
-    if text.count("(") - text.count(")") > 40:
-        return True
     return False
 
 
@@ -88,9 +162,8 @@ def max_nesting(text) -> int:
             best = max(best, depth)
         elif ch in ")}]":
             depth = max(0, depth - 1)
-    run = best
     bangs = max((len(m.group(0)) for m in re.finditer(r"(?:!\s*){2,}", text)), default=0)
-    return max(run, bangs)
+    return max(best, bangs)
 
 
 def mutate_tokens(rng, text, n_edits):
